@@ -52,6 +52,12 @@ def separator_pattern(repo, rule):
                                 isinstance(z, ast.Assign) and isinstance(z.targets[0], ast.Name) and z.targets[0].id == name
                                 for z in seq[seq.index(st) + 1:seq.index(node)]):
                             seps.append((c, node))
+    if len(seps) > 1 and len({id(n) for _, n in seps}) == 1:
+        # several match results feed ONE yielding test: the blank-line test is the fullmatch; the others are extra triggers
+        # (judged by the rule that the separator test depends on the blank-line match and the comment state only)
+        full = [x for x in seps if ast.unparse(x[0].func) == 're.fullmatch']
+        if len(full) == 1:
+            seps = full
     if len(seps) != 1:
         raise AnalysisError(rule, 'PbnParser.parse_stream', f'cannot identify the game-separator test ({len(seps)} candidates)')
     call, ifnode = seps[0]
